@@ -7,6 +7,17 @@ ROOT = os.path.dirname(os.path.dirname(os.path.abspath(__file__)))
 ALL = ["C%02d" % i for i in range(1, 21)]
 
 CLAIMED = {
+    "C10": dict(
+        category="model_checking",
+        text="MC_SoftDecoding checks the oracle (Wagner's rule = brute-force soft ML on every tie-free vector; cycle-free test; flooding min-sum). "
+             "Trace_Soft validates recorded decodings: clean LLRs of every codeword (BP exact/Taylor, min-sum plain/scaled/normalised/offset, Wagner, "
+             "soft RM; several magnitudes, iteration counts, output shape); Wagner on arbitrary integer vectors against brute-force ML computed by TLC; BP "
+             "soft output on tree-structured codes against the exact rational posterior on the ln2 lattice; min-sum soft output against the spec's "
+             "flooding min-sum with rational alpha and integer beta, plus rescaling invariance.",
+        design_ref="7/C10",
+        note="Exact comparison only on lattices where the arithmetic is rational/integer (ln2 lattice |a|<=2, n<=7 for posteriors; integers in 1/320 units for "
+             "min-sum, <=3 iterations); ties and the sub-offset corner are excluded by spec predicates and counted in the evidence.",
+        technique="TLA+ spec SoftDecoding + TLC: exact-arithmetic oracle model checking, trace validation of recorded soft decodings"),
     "C11": dict(
         category="model_checking",
         text="MC_Polar model-checks, for every input / every information mask with N<=8 (16 for the transform), that the butterfly equals multiplication by "
